@@ -219,7 +219,11 @@ fn doc(k: usize) -> Result<Doc, String> {
             // a prefix used on the root element must be declared there, which (as documented)
             // lists it as an extension of the file: not a foreign attribute case
             if e.local != "e57Root" {
+                // at the end of the start tag and directly behind the element name (before the
+                // standard attributes)
                 ap.push((e.local.clone(), e.open_end));
+                let qlen = e.local.len() + if e.prefix.is_empty() { 0 } else { e.prefix.len() + 1 };
+                ap.push((e.local.clone(), e.start + 1 + qlen));
             }
             let container = matches!(e.attr("type"), Some("Structure") | Some("Vector") | Some("CompressedVector"));
             if container && !e.self_closing {
